@@ -13,7 +13,7 @@ from bctmc.tally import Tally
 
 PROPERTY = 'C01'
 RULE = ('configurations = routine x input x budget; inputs: every labelled 4-node graph with two vertex-disjoint edges '
-        '(binary and distinct weights), named 5-6 node graphs (path, cycle, star+edge, bow-tie, matching, bridged '
+        '(binary, distinct weights, and on a subset weights of 1e-9, negative weights, Fortran-ordered input), named 5-6 node graphs (path, cycle, star+edge, bow-tie, matching, bridged '
         'triangles), every 4-node digraph with 2-3 (thorough 4) arcs containing two vertex-disjoint arcs, named 5-6 node '
         'digraphs; budgets 0,1,2 outer iterations (thorough 3); latticisers with all n! initial node orders; '
         'randomizer_bin_und on every 5-node graph x alpha in {0,0.5,1} by plain enumeration; every configuration is '
@@ -42,6 +42,18 @@ def catalogue(thorough):
                         continue
                     cfgs.append({'fn': fn, 'tag': tag + ('_w' if weighted else ''), 'W': W,
                                  'params': {'iters': iters}})
+    # representation / tolerance variants on a few inputs: tiny weights (below common tolerances), negative weights,
+    # Fortran-ordered input
+    for fn, pool, builder in (('randmio_und', und4[::6] + rw.NAMED_UND[:2], rw.und_from_edges),
+                              ('randmio_und_connected', rw.NAMED_UND[:2], rw.und_from_edges),
+                              ('randmio_dir', rw.dir4_all(2, 3)[::12] + rw.NAMED_DIR[:1], rw.dir_from_arcs),
+                              ('randmio_dir_connected', rw.NAMED_DIR[:2], rw.dir_from_arcs)):
+        for tag, n, es in pool:
+            W = builder(n, es, True)
+            for vname, V in (('tiny', W * 1e-9), ('neg', -W), ('forder', np.asfortranarray(W))):
+                if vname == 'neg' and fn.endswith('_connected'):
+                    continue
+                cfgs.append({'fn': fn, 'tag': tag + '_w_' + vname, 'W': V, 'params': {'iters': 2}})
     # partial randomisation with masks
     for tag, n, edges in und4 + rw.NAMED_UND[:4]:
         W = rw.und_from_edges(n, edges, True)
